@@ -1456,6 +1456,7 @@ def rule_graph_writers(F, R):
     for ctx, tmpl in want.items():
         ws = [f for f in edge_writes if f[0] == ctx]
         ok = len(ws) == 1 and ws[0][1] is not None and ws[0][1].strip() == tmpl
+        if ok and ctx == (('dot', False),) and not ws[0][1].endswith('\n'): ok = False          # one edge per line: the edge list is read back line by line
         if ok:
             (a, i0), (b, i1) = ws[0][2]
             ok = a is not None and a == b and (i0, i1) == (0, 1) and rolename(mroles, ws[0][3]) == 'selection'
